@@ -219,6 +219,7 @@ impl Prop for C01 {
             // possibly a stricter checker, PRM problem replacement, repeated solve)
             histories: ch.prob(0.25),
             p_world2: 0.6,
+            p_retune: 0.1,
             ..Default::default()
         };
         gen_plan_case(ch, &prof)
@@ -385,6 +386,7 @@ impl Prop for C02 {
             max_obst: 2,
             budget_scale: 0.6,
             p_odd_start: 0.2,
+            p_retune: 0.1,
             ..Default::default()
         };
         let mut c = gen_plan_case(ch, &prof);
@@ -531,6 +533,7 @@ impl Prop for C03 {
             budget_scale: 0.7,
             p_nonconvex: 0.4,
             p_prm_requery: 0.4,
+            p_retune: 0.25,
             ..Default::default()
         };
         gen_plan_case(ch, &prof)
@@ -571,6 +574,9 @@ impl Prop for C03Star {
                 budget: ch.int(100, 400) as u64,
             });
         }
+        if ch.prob(0.2) {
+            insert_retune(ch, &mut c.ops, c.step, c.goal_bias, c.radius);
+        }
         c
     }
     fn check(case: &PlanCase, ctx: &mut Ctx) {
@@ -602,41 +608,60 @@ pub fn offending_components(cfg: &SpaceCfg, s: &[f64], tol: f64) -> Vec<usize> {
 }
 
 pub fn c04_oracle(case: &PlanCase, trace: &Trace, ctx: &mut Ctx) {
-    let cfg = &case.space;
     let pname = planner_name(case.planner);
     let tol = 1e-9;
-    // precondition of the statement: start and every goal sample in bounds
-    for p in &case.problems {
-        if !offending_components(cfg, &p.start, tol).is_empty() {
+    // precondition of the statement: start and every goal sample in bounds (of their own space)
+    for (pi, p) in case.problems.iter().enumerate() {
+        if !offending_components(case.space_for(pi), &p.start, tol).is_empty() {
             ctx.discard("start out of bounds");
             return;
         }
     }
-    for g in &trace.rec.goal_samples {
-        if !offending_components(cfg, g, tol).is_empty() {
-            ctx.discard("goal sample out of bounds (precondition)");
-            return;
-        }
-    }
-    for s in &trace.rec.samples {
-        let off = offending_components(cfg, s, tol);
-        if !off.is_empty() {
-            ctx.fail(
-                "C04:uniform-sample-out-of-bounds",
-                format!("sample_uniform returned {s:?}, out of bounds in components {off:?}"),
-            );
-            return;
-        }
-    }
-    let bounded_strictly = cfg.comps.iter().any(|c| match c {
-        Comp::RV { bounds, .. } => bounds.is_some(),
-        Comp::SO2 { bounds } => bounds
-            .map(|(lo, hi)| hi - lo < 2.0 * std::f64::consts::PI - 1e-9)
-            .unwrap_or(false),
-        Comp::SO3 { bounds } => bounds.map(|(_, a)| a < std::f64::consts::PI).unwrap_or(false),
+    // the problem (hence the space) in effect at each step; a setup step already draws from the
+    // problem it installs
+    let mut prob_at = vec![0usize; trace.steps.len()];
+    walk_model(case, trace, |i, m, st| {
+        prob_at[i] = match st.op {
+            Op::Setup(p) => p % case.problems.len(),
+            Op::SetProblem(p) if case.planner == PlannerTag::PRM => p % case.problems.len(),
+            _ => m.problem.unwrap_or(0),
+        };
     });
-    for st in &trace.steps {
+    for (i, st) in trace.steps.iter().enumerate() {
+        let cfg = case.space_for(prob_at[i]);
+        for g in &trace.rec.goal_samples[st.goal_samples.0..st.goal_samples.1] {
+            if !offending_components(cfg, g, tol).is_empty() {
+                ctx.discard("goal sample out of bounds (precondition)");
+                return;
+            }
+        }
+    }
+    for (i, st) in trace.steps.iter().enumerate() {
+        let cfg = case.space_for(prob_at[i]);
+        for s in &trace.rec.samples[st.samples.0..st.samples.1] {
+            let off = offending_components(cfg, s, tol);
+            if !off.is_empty() {
+                ctx.fail(
+                    "C04:uniform-sample-out-of-bounds",
+                    format!("sample_uniform returned {s:?}, out of bounds in components {off:?}"),
+                );
+                return;
+            }
+        }
+    }
+    for (i, st) in trace.steps.iter().enumerate() {
+        let cfg = case.space_for(prob_at[i]);
+        let bounded_strictly = cfg.comps.iter().any(|c| match c {
+            Comp::RV { bounds, .. } => bounds.is_some(),
+            Comp::SO2 { bounds } => bounds
+                .map(|(lo, hi)| hi - lo < 2.0 * std::f64::consts::PI - 1e-9)
+                .unwrap_or(false),
+            Comp::SO3 { bounds } => bounds.map(|(_, a)| a < std::f64::consts::PI).unwrap_or(false),
+        });
         let Res::Path(p) = &st.res else { continue };
+        if case.space2.is_some() && prob_at[i] == 1 {
+            ctx.label("path-in-second-space");
+        }
         for (k, s) in p.iter().enumerate() {
             let off = offending_components(cfg, s, tol);
             if off.is_empty() {
@@ -667,7 +692,7 @@ impl Prop for C04 {
     type Case = PlanCase;
     const ID: &'static str = "C04";
     const PART: &'static str = "bounds";
-    const RULE: &'static str = "planner cases over bounded spaces of every kind: boxes, SO2 intervals of every span (incl. > pi and seam-touching), SO3 cones of radius (0.3, pi), compounds; start in bounds; goal samples checked against the precondition (case discarded otherwise); 40% of cases put start and goal on opposite ends of the SO2 interval. Reference membership independent of satisfies_bounds, tolerance 1e-9 (SO3 1e-6). Non-trivial = path with >= 3 states in a space whose bounds are strictly smaller than the manifold.";
+    const RULE: &'static str = "planner cases over bounded spaces of every kind: boxes, SO2 intervals of every span (incl. > pi and seam-touching), SO3 cones of radius (0.3, pi), compounds; start in bounds; goal samples checked against the precondition (case discarded otherwise); 40% of cases put start and goal on opposite ends of the SO2 interval; 30% are call histories, and in 60% of those the second problem is defined over its own space object with tighter bounds (installed by setup), every sample and path state being judged against the space of the problem in effect. Reference membership independent of satisfies_bounds, tolerance 1e-9 (SO3 1e-6). Non-trivial = path with >= 3 states in a space whose bounds are strictly smaller than the manifold.";
     fn random_cases(tier: Tier) -> usize {
         tier.pick(12_000, 120_000)
     }
@@ -678,6 +703,11 @@ impl Prop for C04 {
             max_obst: 2,
             rng_goal: 0.4,
             p_so3_signflip: 0.1,
+            p_retune: 0.1,
+            // a third of the cases are histories; in 60% of those the second problem lives in
+            // its own, tighter space
+            histories: ch.prob(0.3),
+            p_space2: 0.6,
             ..Default::default()
         };
         gen_plan_case(ch, &prof)
@@ -691,12 +721,31 @@ impl Prop for C04 {
 // C05
 // ---------------------------------------------------------------------------------------------
 
-pub fn edge_limit(case: &PlanCase) -> f64 {
-    match case.planner {
-        PlannerTag::RRT | PlannerTag::RRTConnect => case.step,
-        PlannerTag::RRTStar => case.step.max(case.radius),
-        PlannerTag::PRM => case.radius,
+pub fn limit_of(planner: PlannerTag, p: (f64, f64, f64)) -> f64 {
+    match planner {
+        PlannerTag::RRT | PlannerTag::RRTConnect => p.0,
+        PlannerTag::RRTStar => p.0.max(p.2),
+        PlannerTag::PRM => p.2,
     }
+}
+pub fn edge_limit(case: &PlanCase) -> f64 {
+    limit_of(case.planner, (case.step, case.goal_bias, case.radius))
+}
+/// The extension limit that applies to the edges a planner may hold at step `si`: the largest
+/// value its parameters had since the last `setup` (which clears trees and roadmap).
+pub fn edge_limit_upto(case: &PlanCase, trace: &Trace, si: usize) -> f64 {
+    let mut lim = f64::NEG_INFINITY;
+    for st in trace.steps[..=si.min(trace.steps.len().saturating_sub(1))].iter() {
+        if matches!(st.op, Op::Setup(_)) {
+            lim = f64::NEG_INFINITY;
+        }
+        let l = limit_of(case.planner, st.params);
+        if l.is_nan() {
+            return f64::NAN;
+        }
+        lim = lim.max(l);
+    }
+    lim
 }
 
 fn c05_k<K: Kind>(case: &PlanCase, trace: &Trace, ctx: &mut Ctx) {
@@ -704,9 +753,9 @@ fn c05_k<K: Kind>(case: &PlanCase, trace: &Trace, ctx: &mut Ctx) {
         return;
     };
     let pname = planner_name(case.planner);
-    let limit = edge_limit(case);
-    for st in &trace.steps {
+    for (si, st) in trace.steps.iter().enumerate() {
         let Res::Path(p) = &st.res else { continue };
+        let limit = edge_limit_upto(case, trace, si);
         for k in 0..p.len().saturating_sub(1) {
             let d = ks.d(&p[k], &p[k + 1]);
             let r = ref_distance(&case.space, &p[k], &p[k + 1]);
@@ -718,7 +767,7 @@ fn c05_k<K: Kind>(case: &PlanCase, trace: &Trace, ctx: &mut Ctx) {
                     format!("segment {k}: distance {d:e} (reference {r:e}) exceeds the extension limit {limit:e} (+tol {tol:e})"),
                 );
             }
-            if d >= 0.99 * case.step && d <= case.step * 1.01 {
+            if d >= 0.99 * st.params.0 && d <= st.params.0 * 1.01 {
                 ctx.label("steered-edge");
                 ctx.nontrivial = true;
             }
@@ -746,6 +795,7 @@ impl Prop for C05 {
             p_prm_requery: 0.4,
             p_so3_signflip: 0.15,
             big_radius: ch.prob(0.5),
+            p_retune: 0.2,
             ..Default::default()
         };
         gen_plan_case(ch, &prof)
